@@ -21,12 +21,18 @@ LAYOUTS = {
     'redirect-first': [(UX['R'], REDIR, 0), (UX['P'], POST, 1)],
     'duplicate-index': [(UX['P'], POST, 0), (UX['R'], REDIR, 0)],
     'no-index': [(UX['P'], POST, None), (UX['R'], REDIR, None)],
+    # X declares AuthnRequestsSigned="true" in its metadata
+    'three-bindings+signs-requests': [(UX['P'], POST, 0), (UX['R'], REDIR, 1), (UX['A'], ART, 2)],
+    # the IdP gets its metadata from an MDQ service (modelled at mdstore.requests.get) which answers unknown
+    # identifiers with a 200 fallback document: the descriptor of X
+    'three-bindings@mdq-fallback': [(UX['P'], POST, 0), (UX['R'], REDIR, 1), (UX['A'], ART, 2)],
+    'three-bindings@mdq-strict': [(UX['P'], POST, 0), (UX['R'], REDIR, 1), (UX['A'], ART, 2)],
 }
 Y_ACS = [(UY['P'], POST, 0), (UY['R'], REDIR, 1)]
 
 
-def md_x(acs):
-    mdx = world.sp_md(X, acs=acs, slo=SLO_X, extra='')
+def md_x(acs, ars=None):
+    mdx = world.sp_md(X, acs=acs, slo=SLO_X, extra='', authn_requests_signed=ars)
     # manage-name-id endpoint for X
     return mdx.replace('<md:AssertionConsumerService', '<md:ManageNameIDService Binding="%s" Location="%s"/><md:AssertionConsumerService' % (SOAP, MNI_X[0][0]), 1)
 
@@ -35,9 +41,50 @@ def md_y():
     return world.sp_md(Y, keys=(('spY', 'signing'),), acs=Y_ACS, slo=SLO_Y)
 
 
+class _MdqResp(object):
+    def __init__(self, code, body=''):
+        self.status_code = code
+        self.content = body.encode('utf-8')
+        self.text = body
+
+
+def mdq_get(layout):
+    """Model of an MDQ front end: /entities/{sha1}<hex> for X and Y; unknown identifiers get 404 (strict) or the
+    service's fallback document, X's descriptor, with status 200."""
+    import hashlib
+    docs = {}
+    for eid, doc in ((X, md_x(LAYOUTS[layout])), (Y, md_y())):
+        docs['{sha1}' + hashlib.sha1(eid.encode('utf-8')).hexdigest()] = doc
+
+    def get(url, **kw):
+        key = url.rsplit('/', 1)[1]
+        if key in docs:
+            return _MdqResp(200, docs[key])
+        if layout.endswith('fallback'):
+            return _MdqResp(200, md_x(LAYOUTS[layout]))
+        return _MdqResp(404)
+    return get
+
+
 def server(layout):
     if layout not in _c:
-        _c[layout] = world.make_idp(TMP[0], [md_x(LAYOUTS[layout]), md_y()])
+        if '@mdq' in layout:
+            from saml2_tophat import mdstore
+            from saml2_tophat.config import IdPConfig
+            from saml2_tophat.server import Server
+            conf = world.idp_config(TMP[0], [])
+            conf['metadata'] = {'mdq': ['https://mdq.example']}
+            c = IdPConfig()
+            c.load(conf)
+            _c[layout] = Server(config=c)
+        else:
+            _c[layout] = world.make_idp(TMP[0], [md_x(LAYOUTS[layout], ars=True if layout.endswith('+signs-requests') else None), md_y()])
+    if '@mdq' in layout:
+        from saml2_tophat import mdstore
+
+        class _Req(object):
+            get = staticmethod(mdq_get(layout))
+        mdstore.requests = _Req       # the seam: module attribute used by MetaDataMDX
     return _c[layout]
 
 
@@ -86,6 +133,13 @@ def cells(thorough):
             if not thorough and iss != 'X' and (idx is not None and pb is not None):
                 continue
             out.append(('AuthnRequest', layout, url, idx, pb, iss, None))
+            if idx is None and (thorough or iss == 'X'):
+                # the caller restricts the bindings it can answer with
+                for bnd in ([POST], [REDIR], [REDIR, POST]):
+                    out.append(('AuthnRequest', layout, url, idx, pb, iss, bnd))
+            if layout.endswith('+signs-requests') and idx is None:
+                # the request carries a ds:Signature element (what it is worth is not this property's business)
+                out.append(('AuthnRequest@signed', layout, url, idx, pb, iss, None))
         for iss in ('X', 'Y', 'unknown', 'absent'):
             for bnd in (None, [SOAP], [REDIR], [POST]):
                 out.append(('LogoutRequest', layout, None, None, None, iss, bnd))
@@ -129,7 +183,8 @@ ISS = {'X': X, 'Y': Y, 'unknown': 'urn:vp:nobody', 'absent': None}
 def build_msg(kind, url, idx, pb, iss):
     from saml2_tophat import samlp
     k = kind.split('@')[0]
-    xml = forge.request(env.BASE, kind=k, issuer=ISS[iss], acs_url=url, acs_index=idx, protocol_binding=pb)
+    xml = forge.request(env.BASE, kind=k, issuer=ISS[iss], acs_url=url, acs_index=idx, protocol_binding=pb,
+                        sign='spX' if kind.endswith('@signed') else None)
     return getattr(samlp, {'AuthnRequest': 'authn_request_from_string', 'LogoutRequest': 'logout_request_from_string',
                            'ManageNameIDRequest': 'manage_name_id_request_from_string'}[k])(xml)
 
@@ -171,6 +226,8 @@ def judge(cell, r):
             return 'destination-for-requester-absent-from-metadata'
         return None
     regs = registered(kind, layout, iss)
+    if '@mdq' in layout and iss == 'Y':
+        regs = [(t[0], t[1]) for t in Y_ACS] if kind.startswith('AuthnRequest') else regs
     if (dest, binding) not in regs:
         if url is not None and dest == url and url not in [u for u, _b in regs]:
             return 'answered-to-supplied-unregistered-address'
@@ -205,7 +262,7 @@ def run(ctx):
         'level': 'exploration',
         'coverage': {
             'evaluations': len(cs), 'distinct_nontrivial': len(nontriv), 'exhaustive': True, 'answered': ok, 'vacuous': ok == 0,
-            'rule': 'complete product: 6 SP metadata layouts (1-3 ACS endpoints over POST/Redirect/Artifact, two POST endpoints with isDefault, Redirect listed first, duplicate index, no index; SLO and ManageNameID endpoints; a second SP with its own URLs) x supplied consumer URL (absent, each registered, other SP\'s, unregistered, case-changed host, trailing slash, truncated, extra query, userinfo trick, empty) x index (absent, each known, unknown, non-numeric) x ProtocolBinding (absent, POST, Redirect, Artifact, unknown) x issuer (X, Y, unknown, absent); LogoutRequest / ManageNameIDRequest x issuer x bindings argument; plus the non-initial states "X asked first" and "X served, then the metadata source of X reloaded under the same key with fewer endpoints / without X"; non-trivial = anything but a plain request of X',
+            'rule': 'complete product: 6 SP metadata layouts (1-3 ACS endpoints over POST/Redirect/Artifact, two POST endpoints with isDefault, Redirect listed first, duplicate index, no index; SLO and ManageNameID endpoints; a second SP with its own URLs) x supplied consumer URL (absent, each registered, other SP\'s, unregistered, case-changed host, trailing slash, truncated, extra query, userinfo trick, empty) x index (absent, each known, unknown, non-numeric) x ProtocolBinding (absent, POST, Redirect, Artifact, unknown) x issuer (X, Y, unknown, absent) x bindings argument of response_args (absent, POST, Redirect, both); requests carrying a ds:Signature from an SP whose metadata says AuthnRequestsSigned; metadata obtained from an MDQ service (strict, and one that answers unknown identifiers with a fallback document); LogoutRequest / ManageNameIDRequest x issuer x bindings argument; plus the non-initial states "X asked first" and "X served, then the metadata source of X reloaded under the same key with fewer endpoints / without X"; non-trivial = anything but a plain request of X',
             'samples': [{'cell': list(cs[i0]), 'result': res[i0]}], 'distinct_outcomes': len(hist), 'outcome_histogram': hist,
         },
         'assumptions': ['requests are built by parsing forged XML with the library\'s own *_from_string (no signature involved)',
